@@ -44,7 +44,7 @@ def cases(draw):
     inbound = draw(st.lists(st.sampled_from(["dwr", "app"]), max_size=3))
     sched = draw(conc.schedules(300))
     return {"role": draw(st.sampled_from(["client", "server"])), "subs": subs, "pw": pw, "sizes": sizes, "inbound": inbound,
-            "sched": sched, "lines": draw(st.booleans()) if sched else False, "holds": draw(conc.holds()),
+            "sched": sched, "lines": draw(st.booleans()) if sched else False, "holds": draw(conc.holds(bias="submitter")),
             "gen2": draw(st.sampled_from([None, None, None, "local-close", "peer-fin", "peer-fin-mid-message"]))}
 
 
